@@ -300,9 +300,12 @@ fn sender_writer(cfg: &RunCfg, oversize_stage: bool) -> Outcome {
             return Outcome { nontrivial: true, ..Default::default() };
         }
     };
-    let head = String::from_utf8_lossy(&out[..head_end]).to_string();
-    if !head.starts_with("HTTP/1.1 200 ") || !head.contains("content-type: text/event-stream\r\n") || !head.contains("transfer-encoding: chunked\r\n") {
-        return Outcome::fail("C11.wellformed", format!("unexpected response head {head:?}"));
+    {
+        let (rs, _) = crate::oracle::http::parse_transcript(&out);
+        let ok = rs.first().map(|r| r.code == 200 && r.header("content-type").map(|v| v.starts_with("text/event-stream")).unwrap_or(false) && r.framing == crate::oracle::http::Framing::Chunked).unwrap_or(false);
+        if !ok {
+            return Outcome::fail("C11.wellformed", format!("unexpected response head {:?}", String::from_utf8_lossy(&out[..head_end])));
+        }
     }
     let d = decode(&out[head_end..]);
     let mut chunks: Vec<&[u8]> = Vec::new();
